@@ -2,6 +2,7 @@
 import importlib.util
 import os
 
+import core
 import dispatch as D
 import sym as S
 
@@ -65,7 +66,7 @@ def include(ctx, r, modname, rid, pick=None, prefix=None):
         mod = importlib.import_module('rules.' + modname)
         sub = type(ctx)(ctx.facts, ctx.info, ctx.prop, ctx.tier, ctx.config)
         sub._is_sub = True
-        mod.run(sub)
+        core.run_rules(mod, sub)
         _SUB_CACHE[key] = sub
     sub = _SUB_CACHE[key]
     n = 0
